@@ -151,6 +151,16 @@ func drawArg(t *rt.Tape, bits int, bigHeader bool) circuit.IOArg {
 // richCircuit draws a circuit whose I/O signature uses names, arrays,
 // structs and compound members.
 func richCircuit(t *rt.Tape) *circuit.Circuit {
+	if t.Choose(rt.SGen, 12) == 0 {
+		// more than a thousand arguments or results: the signature (one text line in
+		// the Bristol format) outgrows every fixed-size line or header buffer
+		n := 1300 + t.Choose(rt.SGen, 1400)
+		rt.Reach("io.more-than-1300-arguments-or-results")
+		if t.Choose(rt.SGen, 2) == 0 {
+			return gen.Circuit(t, gen.CircuitOpts{Parties: n, MaxIn: 2, MaxGates: 10, MaxOutW: 3})
+		}
+		return gen.Circuit(t, gen.CircuitOpts{MaxIn: 8, MaxGates: 10, MaxOutW: 2, FixedOuts: n})
+	}
 	c := gen.Circuit(t, gen.CircuitOpts{MaxGates: 120, MaxIn: 40})
 	bigHeader := t.Choose(rt.SGen, 6) == 0
 	if bigHeader {
